@@ -181,3 +181,24 @@ func (in *Inst) Post(endpoint string, chain [][]byte) (int, string, *trillian.Lo
 	}
 	return w.Code, w.Body.String(), leaf
 }
+
+// PostUnlocked submits a chain without serializing against other requests to the same instance (concurrent
+// histories); only the HTTP status and the body are returned.
+func (in *Inst) PostUnlocked(endpoint string, chain [][]byte) (int, string) {
+	var req struct {
+		Chain []string `json:"chain"`
+	}
+	for _, c := range chain {
+		req.Chain = append(req.Chain, base64.StdEncoding.EncodeToString(c))
+	}
+	body, _ := json.Marshal(req)
+	path := "/verif/ct/v1/" + endpoint
+	h, ok := in.I.Handlers[path]
+	if !ok {
+		panic("no handler for " + path)
+	}
+	r := httptest.NewRequest(http.MethodPost, "http://log.example"+path, bytes.NewReader(body))
+	w := httptest.NewRecorder()
+	h.ServeHTTP(w, r)
+	return w.Code, w.Body.String()
+}
